@@ -1,6 +1,6 @@
 (* C11 — IndexAny / LastIndexAny / ContainsAny implement case-insensitive
    set membership. *)
-From Strcase Require Import Base Utf8 Utf8Facts Spec SpecFacts SpecIndex SpecChars Fold FoldFacts FoldTables FoldFacts121.
+From Strcase Require Import Base Utf8 Utf8Facts Spec SpecFacts SpecIndex SpecChars Fold FoldFacts FoldTables FoldFacts121 Impl Impl7 Instances.
 
 Theorem C11_index_any_first : forall s chars i,
   index_any fold121 s chars = i -> 0 <= i ->
@@ -33,6 +33,26 @@ Proof. reflexivity. Qed.
 Theorem C11_first_iff_last : forall s chars,
   0 <= index_any fold121 s chars <-> 0 <= last_index_any fold121 s chars.
 Proof. exact (index_any_iff_last fold121). Qed.
+
+(* the structure-faithful models (Impl7: makeASCIISet and the asciiSet byte scan with its bail-out
+   when chars contains K k S s and s is not ASCII; the single-character shortcut; the per-character
+   IndexRune search with truncation of s; the walk over s testing IndexRune(chars, c); and the
+   right-to-left counterparts with DecodeLastRune, LastIndexByte for one ASCII character and the
+   one-byte haystack case) compute exactly these Spec functions — every pair of byte strings, every
+   cut-over function, both NativeIndex values, never panicking, never out of fuel *)
+Theorem C11_indexany_refines : forall native cutover s chars, wf s -> wf chars ->
+  Impl7.IndexAny native cutover fold_map121 upper_lower121 s chars = Ok (index_any fold121 s chars).
+Proof. exact indexany_refines121. Qed.
+Print Assumptions C11_indexany_refines.
+
+Theorem C11_containsany_refines : forall native cutover s chars, wf s -> wf chars ->
+  Impl7.ContainsAny native cutover fold_map121 upper_lower121 s chars = Ok (contains_any fold121 s chars).
+Proof. exact containsany_refines121. Qed.
+
+Theorem C11_lastindexany_refines : forall native cutover s chars, wf s -> wf chars ->
+  Impl7.LastIndexAny native cutover fold_map121 upper_lower121 s chars = Ok (last_index_any fold121 s chars).
+Proof. exact lastindexany_refines121. Qed.
+Print Assumptions C11_lastindexany_refines.
 
 (* k/K match U+212A, s/S match U+017F and vice versa *)
 Example C11_example :
